@@ -37,6 +37,11 @@ def networkRewardPerEpoch (tbl : List Int) (epoch : Nat) : Option Int :=
 def networkZnnRewardPerEpoch (epoch : Nat) : Option Int := networkRewardPerEpoch Gen.NetworkZnnRewardConfig epoch
 def networkQsrRewardPerEpoch (epoch : Nat) : Option Int := networkRewardPerEpoch Gen.NetworkQsrRewardConfig epoch
 
+/-- rpc/api/embedded/shared.go `getFrontierRewardByPage`: the first (newest) epoch of a page of the reward history,
+    `lastEpoch.LastEpoch - int64(pageIndex)*int64(pageSize)` in int64 (both factors < 2^32) -/
+def rewardHistoryFirstEpoch (last : Int) (pageIndex pageSize : Nat) : Int :=
+  wrap64 (last - mul64 (pageIndex : Int) (pageSize : Int))
+
 /-- `(n * pct) / 100` in int64 -/
 def pctOf (n pct : Int) : Option Int := div64 (mul64 n pct) 100
 
